@@ -3,7 +3,8 @@
 From Coq Require Import List Arith Bool Permutation Reals String.
 From BVgen Require Import NumbaKernels.
 From BV Require Import AssemblyA.Sums AssemblyA.Mat AssemblyA.Dense AssemblyA.Congruence AssemblyA.Equivariance
-     Kernels.Invariance.
+     AssemblyA.GeometryTie Kernels.Invariance.
+From BVgen Require Import GeometryFacts.
 
 (* relabelling elements (pi), local indices (loc: cyclic rotation of the local vertex order, orientation flip),
    global DOFs (rho) and signs of edge functions (sgn): the assembled matrix is the permuted, sign-changed matrix.
@@ -69,6 +70,17 @@ Theorem C03_geometry_from_differences :
     req (gram_det (sub3 (add3 v1 t) (add3 v0 t)) (sub3 (add3 v2 t) (add3 v0 t))) (gram_det (sub3 v1 v0) (sub3 v2 v0)).
 Proof. exact @geometry_from_differences. Qed.
 Print Assumptions C03_geometry_from_differences.
+
+(* tie to the source (regenerated on every run from Grid._compute_geometric_quantities, translator fails closed): the code
+   computes the normal direction as cross(jacobians[::2], jacobians[1::2]) with jacobians = vertex differences, and absolute
+   vertex coordinates enter nothing but the centroids *)
+Theorem C03_geometry_source_uses_differences :
+  geometry_from_differences_in_source = true /\
+  geometry_normal_cross_arguments = ("jacobians[::2]"%string :: "jacobians[1::2]"%string :: nil) /\
+  (forall q, In q geometry_absolute_quantities ->
+             q = "centroids"%string \/ q = "element_vertices"%string \/ q = "self._centroids"%string).
+Proof. exact geometry_source_uses_differences. Qed.
+Print Assumptions C03_geometry_source_uses_differences.
 
 (* orthogonal maps preserve det(J'J) (integration elements); scaling by s multiplies it by s^4 *)
 Theorem C03_integration_element_rotation :
